@@ -24,6 +24,7 @@ type canonizer struct {
 	lines []string    // one line per indirect object, in id order
 	skip  map[string]bool
 	err   error
+	skipAll map[string]bool // keys left out of every dictionary
 	dang  map[int]bool // object numbers referenced but free or absent from the cross-reference table
 }
 
@@ -79,6 +80,9 @@ func (c *canonizer) dict(d types.Dict, isStream bool, top bool) string {
 			continue
 		}
 		if top && c.skip[k] {
+			continue
+		}
+		if c.skipAll != nil && c.skipAll[k] {
 			continue
 		}
 		v := c.obj(d[k])
@@ -227,8 +231,14 @@ func firstDiff(a, b *Canon) string {
 }
 
 // canonAt computes the canonical form of the graph reachable from an arbitrary object (info dictionary included).
-func canonAt(ctx *model.Context, o types.Object) (*Canon, error) {
+func canonAt(ctx *model.Context, o types.Object, skipAll ...string) (*Canon, error) {
 	c := &canonizer{ctx: ctx, ids: map[int]int{}, skip: map[string]bool{}}
+	if len(skipAll) > 0 {
+		c.skipAll = map[string]bool{}
+		for _, k := range skipAll {
+			c.skipAll[k] = true
+		}
+	}
 	top := c.obj(o)
 	lines := append([]string{"top: " + top}, c.lines...)
 	res := &Canon{Root: lines, Nodes: len(lines), Info: "<<>>"}
